@@ -155,7 +155,7 @@ package res
 //@
 //@ func (r *Request) reply(payload []byte)
 //@   requires reqOK(r)
-//@   modifies res.Request.replied, ghost.rcount, ghost.pubn
+//@   modifies res.Request.replied, ghost.rcount, ghost.pubn, alloc
 //@   ensures ok: !old(r.replied) && r.replied && rcount == store(old(rcount), ref(r), old(rcount[ref(r)]) + 1)
 //@   ensures_on_panic dup: old(r.replied) && r.replied && rcount == old(rcount) && pubn == old(pubn)
 //@   ghost call Conn.Publish#1 before :: assert arg_subject == r.msg.Reply
@@ -171,7 +171,7 @@ package res
 //@   requires reqOK(r)
 //@   requires metaOK: imp(m != nil, r.isHTTP)
 //@   ghost call Marshal#1 before :: assert nonnull: e != nil
-//@   modifies res.Request.replied, ghost.rcount, ghost.pubn
+//@   modifies res.Request.replied, ghost.rcount, ghost.pubn, alloc
 //@   ensures ok: !old(r.replied) && r.replied && rcount == store(old(rcount), ref(r), old(rcount[ref(r)]) + 1)
 //@   ensures_on_panic dup: old(r.replied) && r.replied && rcount == old(rcount)
 //@
@@ -183,13 +183,13 @@ package res
 //@   ensures_on_panic dup: old(r.replied) && r.replied && rcount == old(rcount)
 //@
 //@ func ToError(err error) (rerr *Error)
-//@   modifies alloc, res.Error.Code, res.Error.Message, res.Error.Data
+//@   modifies alloc
 //@   may_panic
 //@   ensures verbatim: imp(typeIs(err, "*res.Error"), rerr == ptrOf(err, "*res.Error"))
 //@   ensures internal: imp(!typeIs(err, "*res.Error"), !isNil(err) && rerr != nil && rerr.Code == "system.internalError")
 //@   ensures_on_panic isNil(err)
 //@ func InternalError(err error) (rerr *Error)
-//@   modifies alloc, res.Error.Code, res.Error.Message, res.Error.Data
+//@   modifies alloc
 //@   may_panic
 //@   ensures !isNil(err) && rerr != nil && rerr.Code == "system.internalError"
 //@   ensures_on_panic isNil(err)
@@ -205,7 +205,7 @@ package res
 //@   ensures_on_panic respX(r)
 //@ func (r *Request) Error(err error)
 //@   requires reqOK(r) && invR(r)
-//@   modifies res.Request.replied, ghost.rcount, ghost.pubn, alloc, res.metaObject.Header, res.metaObject.Status, res.Error.Code, res.Error.Message, res.Error.Data
+//@   modifies res.Request.replied, ghost.rcount, ghost.pubn, alloc, res.metaObject.Header, res.metaObject.Status
 //@   ensures respOK(r) && !old(r.replied)
 //@   ensures_on_panic respX(r)
 //@ func (r *Request) NotFound()
@@ -220,12 +220,12 @@ package res
 //@   ensures_on_panic respX(r)
 //@ func (r *Request) InvalidParams(message string)
 //@   requires reqOK(r) && invR(r)
-//@   modifies res.Request.replied, ghost.rcount, ghost.pubn, alloc, res.metaObject.Header, res.metaObject.Status, res.Error.Code, res.Error.Message, res.Error.Data
+//@   modifies res.Request.replied, ghost.rcount, ghost.pubn, alloc, res.metaObject.Header, res.metaObject.Status
 //@   ensures respOK(r) && !old(r.replied)
 //@   ensures_on_panic respX(r)
 //@ func (r *Request) InvalidQuery(message string)
 //@   requires reqOK(r) && invR(r)
-//@   modifies res.Request.replied, ghost.rcount, ghost.pubn, alloc, res.metaObject.Header, res.metaObject.Status, res.Error.Code, res.Error.Message, res.Error.Data
+//@   modifies res.Request.replied, ghost.rcount, ghost.pubn, alloc, res.metaObject.Header, res.metaObject.Status
 //@   ensures respOK(r) && !old(r.replied)
 //@   ensures_on_panic respX(r)
 //@ func (r *Request) AccessDenied()
@@ -280,7 +280,7 @@ package res
 //@   ensures_on_panic respX(r)
 //@ func (r *Request) Resource(rid string)
 //@   requires reqOK(r) && invR(r)
-//@   modifies res.Request.replied, ghost.rcount, ghost.pubn, alloc, res.metaObject.Header, res.metaObject.Status, res.Error.Code, res.Error.Message, res.Error.Data
+//@   modifies res.Request.replied, ghost.rcount, ghost.pubn, alloc, res.metaObject.Header, res.metaObject.Status
 //@   ensures respOK(r) && !old(r.replied)
 //@   ensures_on_panic respX(r)
 //@ func (r *Request) SetResponseStatus(code int)
@@ -290,7 +290,7 @@ package res
 //@   ensures_on_panic !r.isHTTP || r.replied
 //@ func (r *Request) ResponseHeader() (h http.Header)
 //@   requires r != nil && invR(r)
-//@   modifies res.Request.rheader, alloc, map.card
+//@   modifies res.Request.rheader, alloc, map:res.Request.rheader
 //@   ensures r.isHTTP && !r.replied && invR(r)
 //@   ensures_on_panic !r.isHTTP || r.replied
 //@
@@ -312,7 +312,7 @@ package res
 //@
 //@ func Request.executeHandler$1()
 //@   requires reqOK(r) && invR(r)
-//@   modifies res.Request.replied, ghost.rcount, ghost.pubn, alloc, res.metaObject.Header, res.metaObject.Status, res.Error.Code, res.Error.Message, res.Error.Data
+//@   modifies res.Request.replied, ghost.rcount, ghost.pubn, alloc, res.metaObject.Header, res.metaObject.Status
 //@   ensures quiet: imp(isNil(recovered), r.replied == old(r.replied) && rcount == old(rcount))
 //@   ensures answered: imp(!isNil(recovered), r.replied && invR(r))
 //@
@@ -444,7 +444,7 @@ package res
 //@   = forall(k, 0, len(s), s[k] != '.')
 //@ func (s *Service) handleRequest(m *nats.Msg)
 //@   requires s != nil && m != nil && s.Mux != nil
-//@   modifies res.Service.rwork, res.Service.workqueue, alloc, res.Match.Handler, res.Match.Listeners, res.Match.Params, res.Match.Group
+//@   modifies res.Service.rwork, res.Service.workqueue, alloc, res.Match.Handler, res.Match.Listeners, res.Match.Params, res.Match.Group, res.work.s, res.work.wid, res.work.queue, res.work.single, map:res.Service.rwork, elems:res.Service.workqueue, elems:res.work.queue, ghost.wst, ghost.qpos
 //@   callback onError benign
 //@   ghost call Service.runWith#1 before :: assert split.type: dotFree(rtype) && len(rtype) < len(m.Subject) && m.Subject[0:len(rtype)] == rtype && m.Subject[len(rtype)] == '.'
 //@   ghost call Service.runWith#1 before :: assert split.plain: imp(!(rtype == "call" || rtype == "auth"), len(method) == 0 && m.Subject[len(rtype)+1:] == rname)
@@ -477,7 +477,7 @@ package res
 //@ func (s *Service) rawEvent(subj string, payload []byte)
 //@   requires s != nil && !isNil(s.nc)
 //@   requires subject: nameOK(subj)
-//@   modifies ghost.trn, ghost.trk, ghost.tra, ghost.pubn
+//@   modifies ghost.trn, ghost.trk, ghost.tra, ghost.pubn, alloc
 //@   callback onError benign
 //@   ghost call Conn.Publish#1 after :: set trk = store(trk, trn, 2)
 //@   ghost call Conn.Publish#1 after :: set tra = store(tra, trn, 0)
@@ -614,7 +614,7 @@ package res
 //@
 //@ func (r *resource) ReaccessEvent()
 //@   requires resOK(r) && nameOK(r.rname)
-//@   modifies ghost.trn, ghost.trk, ghost.tra, ghost.pubn
+//@   modifies ghost.trn, ghost.trk, ghost.tra, ghost.pubn, alloc
 //@   ensures pub: trn == old(trn) + 1 && trk == store(old(trk), old(trn), 2)
 //@
 //@ # ================================================================ protocol conformance (C07)
